@@ -24,7 +24,9 @@ ChildShapes ==
   \cup {<<ChExpr(Call("g1", rv))>> : rv \in RvKinds}
   \cup {<<ChExpr(Arrow(ArrLit(<<Lit(Num(1))>>)))>>, <<ChExpr(FnExpr(Lit(S(<<120>>))))>>,
         <<ChExpr(ObjLit(<< <<"default", Arrow(Lit(Num(1)))>>, <<"bar", Arrow(Ident("u1", FALSE, Num(7)))>> >>))>>,
-        <<ChText(<<"a">>)>>, <<ChElem(B)>>, <<ChExpr(Member("o1", "p", Opq("vo1p")))>>,
+        <<ChText(<<"a">>)>>, <<ChElem(B)>>,
+        <<ChElem(Elem(TagHtml("span"), <<Dir("kebab", <<"show">>, "", <<>>, AvExpr(Ident("sv", FALSE, Bool(TRUE))))>>, <<>>))>>,
+        <<ChElem(Elem(TagHtml("i"), <<Dir("kebab", <<"foo">>, "", <<>>, AvExpr(Ident("dv", FALSE, Opq("vdv"))))>>, <<ChText(<<"a">>)>>))>>, <<ChExpr(Member("o1", "p", Opq("vo1p")))>>,
         <<ChExpr(Lit(S(<<108>>)))>>,
         <<ChText(<<"a", "sp">>), ChExpr(Ident("cu", FALSE, S(<<115>>)))>>,
         <<ChExpr(Call("g1", PVNode("pv1"))), ChExpr(Ident("cb", TRUE, PVNode("pv4")))>>,
